@@ -1,3 +1,588 @@
-(* C18/Proofs.v — placeholder while the main proofs are being developed *)
-From Coq Require Import String List Bool.
-From Verif Require Import Base.Str C18.Model C18.Spec C18.Codec C18.Maps C18.Plan.
+(* C18/Proofs.v — the property for EVERY history (induction over the operation list), the codec and
+   targeted-id theorems, the refutation witnesses of the three open findings, non-vacuity examples.
+   Supporting developments: Codec.v (decode (code n) = Some (norm n), injectivity), Maps.v (dict
+   algebra), Plan.v (every operation = decide + one dict action), Reflect.v (boolean spec = spec),
+   Inv.v (state invariant, per action), Steps.v (one step under the hypotheses). *)
+From Coq Require Import String Ascii List Bool Arith Lia.
+From Verif Require Import Base.Str Base.Percent C18.Model C18.Spec C18.Codec C18.Maps C18.ModelV0 C18.Plan C18.Reflect C18.Inv C18.Steps C18.Key.
+Import ListNotations.
+Open Scope string_scope.
+
+Section Runs.
+  Variable cfg : config.
+  Variable is_user : string -> bool.
+
+  Notation Inv := (Inv is_user).
+  Notation Owner := (Owner is_user).
+  Notation ev := (ev cfg).
+  Notation mtrace := (mtrace cfg).
+  Notation final_state := (final_state cfg).
+  Notation step := (step cfg).
+
+  (* everything mentioned up to the end of a history *)
+  Fixpoint seen_after (seen : list string) (ops : list op) : list string :=
+    match ops with
+    | [] => seen
+    | o :: r => seen_after (seen ++ mentions cfg o) r
+    end.
+
+  Lemma seen_after_incl ops : forall seen, incl seen (seen_after seen ops).
+  Proof.
+    induction ops as [|o r IH]; intros seen; cbn [seen_after]; [apply incl_refl|].
+    intros x Hx. apply IH. apply in_app_iff. left. exact Hx.
+  Qed.
+
+  Lemma final_cons d o r : final_state d (o :: r) = final_state (fst (step d o)) r.
+  Proof. reflexivity. Qed.
+
+  Lemma mtrace_app a : forall d b, mtrace d (a ++ b) = (mtrace d a ++ mtrace (final_state d a) b)%list.
+  Proof.
+    induction a as [|o a IH]; intros d b; [reflexivity|].
+    cbn [app]. rewrite (mtrace_cons cfg d o (a ++ b)), (mtrace_cons cfg d o a), final_cons, IH. reflexivity.
+  Qed.
+
+  Lemma mtrace_split t1 : forall d ops t2,
+    mtrace d ops = (t1 ++ t2)%list ->
+    exists a b, ops = (a ++ b)%list /\ t1 = mtrace d a /\ t2 = mtrace (final_state d a) b.
+  Proof.
+    induction t1 as [|e t1 IH]; intros d ops t2 H.
+    - exists [], ops. auto.
+    - destruct ops as [|o r]; [discriminate|]. rewrite mtrace_cons in H. cbn [app] in H.
+      inversion H as [[He Hr]]. destruct (IH _ _ _ Hr) as (a & b & -> & -> & ->).
+      exists (o :: a), b. rewrite mtrace_cons, final_cons. auto.
+  Qed.
+
+  (* a history that satisfies the hypotheses of the property, from a given state *)
+  Definition good (seen : list string) (d : db) (ops : list op) : Prop := wf_from cfg is_user seen (mtrace d ops).
+
+  Definition good_event (seen : list string) (d : db) (o : op) : Prop := wf_event cfg is_user seen (ev d o).
+
+  Lemma good_cons seen d o r :
+    good seen d (o :: r) <-> good_event seen d o /\ good (seen ++ mentions cfg o) (fst (step d o)) r.
+  Proof.
+    unfold good, good_event. rewrite mtrace_cons. cbn [wf_from].
+    unfold Steps.ev at 2. cbn [e_op]. tauto.
+  Qed.
+
+  Lemma good_nil seen d : good seen d [].
+  Proof. exact I. Qed.
+
+  Lemma good_app a : forall seen d b,
+    good seen d (a ++ b) <-> good seen d a /\ good (seen_after seen a) (final_state d a) b.
+  Proof.
+    induction a as [|o a IH]; intros seen d b.
+    - cbn [app seen_after]. pose proof (good_nil seen d). change (final_state d []) with d. tauto.
+    - cbn [app seen_after]. rewrite !good_cons, final_cons, IH. tauto.
+  Qed.
+
+  Lemma good_step seen d o :
+    Inv seen d -> good_event seen d o ->
+    outcome cfg is_user seen d o (fst (step d o)) (snd (step d o)) /\ Inv (seen ++ mentions cfg o) (fst (step d o)).
+  Proof.
+    intros HI Hwf. pose proof (step_outcome cfg is_user seen d o HI Hwf) as Ho.
+    split; [exact Ho|apply (outcome_inv cfg is_user seen d o _ _ HI Ho)].
+  Qed.
+
+  (* the invariant holds in every reachable state *)
+  Theorem run_inv ops : forall seen d, Inv seen d -> good seen d ops -> Inv (seen_after seen ops) (final_state d ops).
+  Proof.
+    induction ops as [|o r IH]; intros seen d HI Hg; [exact HI|].
+    apply good_cons in Hg as [Hge Hgr]. rewrite final_cons. cbn [seen_after].
+    apply IH; [|exact Hgr]. apply (good_step seen d o HI Hge).
+  Qed.
+
+  (* tracked facts along a history *)
+  Theorem run_track ops t u k b : forall seen d,
+    Inv seen d -> good seen d ops -> is_user u = true -> In t seen ->
+    (Owner d t u k b -> Owner (final_state d ops) t u k b)
+    /\ (Has d u t -> ~ removed_in (mtrace d ops) (Some t) -> Has (final_state d ops) u t).
+  Proof.
+    induction ops as [|o r IH]; intros seen d HI Hg Hu Hs; [split; auto|].
+    apply good_cons in Hg as [Hge Hgr]. rewrite final_cons.
+    destruct (good_step seen d o HI Hge) as [Ho HI1].
+    destruct (outcome_track cfg is_user seen d o _ _ t u k b HI Ho Hu Hs) as [T1 T2].
+    assert (Hs1 : In t (seen ++ mentions cfg o)) by (apply in_app_iff; left; exact Hs).
+    destruct (IH _ _ HI1 Hgr Hu Hs1) as [R1 R2]. split.
+    - intros H. apply R1, T1, H.
+    - intros H Hnr. rewrite mtrace_cons in Hnr. destruct (T2 H) as [(n & -> & Ht & Hx)|H1].
+      + exfalso. apply Hnr. exists (ev d (RemoveRemote n)). split; [left; reflexivity|].
+        exists n. repeat split; [exact Ht|exact Hx].
+      + apply R2; [exact H1|]. intros (e & He & Hre). apply Hnr. exists e. split; [right; exact He|exact Hre].
+  Qed.
+
+  Lemma outcome_texts seen d o d' x :
+    outcome cfg is_user seen d o d' x -> forall t, In (Some t) (out_texts x) -> In t (seen ++ mentions cfg o).
+  Proof.
+    intros Ho t Ht.
+    destruct Ho as [x Hx|u n t0 x Hu Ht0 Hne Htu Hns Hc Hs Hx|n t0 d1 -> Hr Ht0 Htu|n n' id t0 d1 newid enc term -> Hr Ht0 Ht' Hl Htu E1 E2 E3].
+    - apply Hx, Ht.
+    - destruct Hx as [->| ->]; [destruct Ht|]. destruct Ht as [E|[]].
+      assert (t0 = t) by congruence. subst t0. apply in_app_iff. right. apply cand_mentions. exact Hc.
+    - destruct Ht.
+    - destruct Ht as [E|[]]. assert (t0 = t) by congruence. subst t0.
+      apply in_app_iff. right. apply (nid_mentions cfg _ n t); [reflexivity|exact Ht0].
+  Qed.
+
+  (* every identifier value that an operation of the history answered has been mentioned *)
+  Theorem run_texts ops : forall seen d,
+    Inv seen d -> good seen d ops ->
+    forall e0, In e0 (mtrace d ops) -> forall t, In (Some t) (out_texts (e_out e0)) -> In t (seen_after seen ops).
+  Proof.
+    induction ops as [|o r IH]; intros seen d HI Hg e0 He0 t Ht; [destruct He0|].
+    apply good_cons in Hg as [Hge Hgr]. rewrite mtrace_cons in He0. cbn [seen_after].
+    destruct (good_step seen d o HI Hge) as [Ho HI1]. destruct He0 as [<-|He0].
+    - apply seen_after_incl. apply (outcome_texts seen d o _ _ Ho t Ht).
+    - apply (IH _ _ HI1 Hgr e0 He0 t Ht).
+  Qed.
+
+  (* the situation at one event of a history *)
+  Lemma at_event seen0 d0 ops pre e post :
+    Inv seen0 d0 -> good seen0 d0 ops -> mtrace d0 ops = (pre ++ e :: post)%list ->
+    exists a o b,
+      ops = (a ++ o :: b)%list /\ pre = mtrace d0 a /\ e = ev (final_state d0 a) o
+      /\ post = mtrace (fst (step (final_state d0 a) o)) b
+      /\ good seen0 d0 a
+      /\ Inv (seen_after seen0 a) (final_state d0 a)
+      /\ good_event (seen_after seen0 a) (final_state d0 a) o
+      /\ Inv (seen_after seen0 a ++ mentions cfg o) (fst (step (final_state d0 a) o))
+      /\ good (seen_after seen0 a ++ mentions cfg o) (fst (step (final_state d0 a) o)) b.
+  Proof.
+    intros HI Hg Hm. destruct (mtrace_split pre d0 ops (e :: post) Hm) as (a & b0 & -> & -> & Hb).
+    destruct b0 as [|o b]; [discriminate|]. rewrite mtrace_cons in Hb. inversion Hb as [[He Hp]].
+    apply good_app in Hg as [Hga Hgb]. apply good_cons in Hgb as [Hge Hgr].
+    pose proof (run_inv a seen0 d0 HI Hga) as HIa.
+    exists a, o, b. split; [reflexivity|]. split; [reflexivity|]. split; [first [exact He|reflexivity]|]. split; [first [exact Hp|reflexivity]|].
+    split; [exact Hga|]. split; [exact HIa|]. split; [exact Hge|]. split; [apply (good_step _ _ o HIa Hge)|exact Hgr].
+  Qed.
+
+  (* ---------------------------------------------------------------- the seven parts *)
+  Section Parts.
+    Variable ops : list op.
+    Hypothesis Hgood : good [] [] ops.
+    Let tr := mtrace [] ops.
+
+    Lemma part_consistent : all_events (consistent_event is_user) tr.
+    Proof.
+      intros pre e post E.
+      destruct (at_event [] [] ops pre e post (inv_init is_user) Hgood E) as (a & o & b & _ & _ & -> & _ & _ & _ & _ & HI1 & _).
+      unfold consistent_event, Steps.ev. cbn [e_post]. split; [apply (inv_fwd _ _ _ HI1)|apply (inv_rev _ _ _ HI1)].
+    Qed.
+
+    Lemma part_valued : all_events (valued_event cfg) tr.
+    Proof.
+      intros pre e post E.
+      destruct (at_event [] [] ops pre e post (inv_init is_user) Hgood E) as (a & o & b & _ & _ & -> & _ & _ & HIa & Hwf & _).
+      intros u f s q n Hr Hout. unfold Steps.ev in Hr, Hout. cbn [e_op e_out] in Hr, Hout.
+      destruct (request_result cfg is_user _ _ o u f s q n HIa Hwf Hr Hout) as (t & c & Ht & Hne & _).
+      rewrite Ht. apply truthy_some. exact Hne.
+    Qed.
+
+    Lemma part_transient : all_events (transient_event cfg) tr.
+    Proof.
+      intros pre e post E.
+      destruct (at_event [] [] ops pre e post (inv_init is_user) Hgood E) as (a & o & b & _ & -> & -> & _ & Hga & HIa & Hwf & _).
+      intros u s q n Hr Hout. unfold Steps.ev in Hr, Hout |- *. cbn [e_op e_out e_pre] in Hr, Hout |- *.
+      destruct (request_result cfg is_user _ _ o u _ s q n HIa Hwf Hr Hout) as (t & c & Ht & Hne & _ & _ & _ & _ & _ & Hcase).
+      destruct Hcase as [(_ & Hf & _)|(Hns & Hl & _)]; [discriminate|].
+      exists t. split; [exact Ht|]. split; [exact Hl|]. intros e0 He0 Hin. apply Hns.
+      apply (run_texts a [] [] (inv_init is_user) Hga e0 He0 t Hin).
+    Qed.
+
+    Lemma part_manage : all_events manage_event tr.
+    Proof.
+      intros pre e post E.
+      destruct (at_event [] [] ops pre e post (inv_init is_user) Hgood E) as (a & o & b & _ & _ & -> & _ & _ & HIa & Hwf & _).
+      apply (manage_ok cfg is_user _ _ o pre HIa Hwf).
+    Qed.
+
+    (* the situation at an ordered pair of events: ei asks for an identifier and gets ni *)
+    Lemma at_pair pre ei mid ej post u f s q ni :
+      tr = (pre ++ ei :: mid ++ ej :: post)%list ->
+      request_of cfg (e_op ei) = Some (u, f, s, q) -> e_out ei = ONid ni ->
+      exists t seen d oj,
+        txt ni = Some t /\ t <> "" /\ is_user t = false /\ is_user u = true
+        /\ Inv seen d /\ good_event seen d oj /\ ej = ev d oj /\ In t seen
+        /\ (exists k b, Owner d t u k b /\ (f = NF_PERSISTENT -> b = true /\ k = (normo s, normo q)))
+        /\ (Has d u t \/ removed_in mid (Some t)).
+    Proof.
+      intros E Hr Hout.
+      destruct (at_event [] [] ops pre ei (mid ++ ej :: post) (inv_init is_user) Hgood E)
+        as (a & oi & b & _ & _ & -> & Hpost & _ & HIa & Hwf & HI1 & Hg1).
+      unfold Steps.ev in Hr, Hout. cbn [e_op e_out] in Hr, Hout.
+      destruct (request_result cfg is_user _ _ oi u f s q ni HIa Hwf Hr Hout)
+        as (t & c & Ht & Hne & Htu & Hu & Hc & Hct & Hfp & Hcase).
+      set (seen1 := (seen_after [] a ++ mentions cfg oi)%list) in *.
+      set (d1 := fst (step (final_state [] a) oi)) in *.
+      assert (Hs1 : In t seen1).
+      { destruct (inv_entry is_user seen1 d1 u c HI1 Hu Hc) as (_ & t' & _ & _ & _ & _ & Hct' & _ & Hs').
+        congruence. }
+      pose proof (owner_of is_user seen1 d1 u c t HI1 Hu Hc Hct) as Hown1.
+      symmetry in Hpost.
+      destruct (at_event seen1 d1 b mid ej post HI1 Hg1 Hpost) as (am & oj & bm & _ & -> & -> & _ & Hgm & HIm & Hgej & _).
+      destruct (run_track am t u (ckey c) (pers c) seen1 d1 HI1 Hgm Hu Hs1) as [R1 R2].
+      exists t, (seen_after seen1 am), (final_state d1 am), oj.
+      repeat (split; [assumption|]). split; [reflexivity|]. split; [apply seen_after_incl; exact Hs1|].
+      split.
+      - exists (ckey c), (pers c). split; [apply R1; exact Hown1|]. intros Hf. destruct (Hfp Hf). auto.
+      - destruct (removed_in_b (mtrace d1 am) (Some t)) eqn:Er.
+        + right. apply removed_in_b_iff. exact Er.
+        + left. apply removed_in_b_false in Er. apply R2; [|exact Er]. exists c. auto.
+    Qed.
+
+    Lemma part_stable : all_pairs (stable_pair cfg) tr.
+    Proof.
+      intros pre ei mid ej post E u s q s' q' ni nj Hri Hrj Hs Hq Hoi Hoj Hnr.
+      destruct (at_pair pre ei mid ej post u _ s q ni E Hri Hoi)
+        as (t & seen & d & oj & Ht & Hne & Htu & Hu & HI & Hwf & -> & Hseen & (k & b & Hown & Hfp) & Hhas).
+      rewrite Ht in Hnr |- *. destruct Hhas as [(c & Hc & Hct)|Hrem]; [|contradiction].
+      destruct (Hfp eq_refl) as [-> ->]. destruct (Hown u c Hu Hc Hct) as (_ & Hk & Hnt).
+      apply same_q_normo in Hs, Hq.
+      unfold Steps.ev in Hrj, Hoj. cbn [e_op e_out] in Hrj, Hoj.
+      destruct (request_result cfg is_user seen d oj u _ s' q' nj HI Hwf Hrj Hoj)
+        as (tj & cj & Htj & _ & _ & _ & Hcj & Hctj & Hfpj & Hcase).
+      destruct (Hfpj eq_refl) as [Hntj Hkj].
+      destruct Hcase as [(Hd & _ & Hcj0 & _)|(_ & _ & Hm)].
+      - (* answered from the store: the single stored identifier of that key *)
+        assert (cj = c) by (apply (inv_single _ _ _ HI u cj c Hu Hcj0 Hc Hntj Hnt); congruence).
+        subst cj. congruence.
+      - (* issued although one is stored: impossible *)
+        exfalso. apply (match_none_single d u s' q' (Hm eq_refl) c Hc Hnt). congruence.
+    Qed.
+
+    Lemma part_distinct : all_pairs (distinct_pair cfg) tr.
+    Proof.
+      intros pre ei mid ej post E u s q u' s' q' ni nj Hri Hrj Hdiff Hoi Hoj Heq.
+      destruct (at_pair pre ei mid ej post u _ s q ni E Hri Hoi)
+        as (t & seen & d & oj & Ht & Hne & Htu & Hu & HI & Hwf & -> & Hseen & (k & b & Hown & Hfp) & _).
+      destruct (Hfp eq_refl) as [-> ->].
+      unfold Steps.ev in Hrj, Hoj. cbn [e_op e_out] in Hrj, Hoj.
+      destruct (request_result cfg is_user seen d oj u' _ s' q' nj HI Hwf Hrj Hoj)
+        as (tj & cj & Htj & _ & _ & Hu' & Hcj & Hctj & Hfpj & Hcase).
+      assert (tj = t) by congruence. subst tj.
+      destruct (Hfpj eq_refl) as [Hntj Hkj].
+      destruct Hcase as [(Hd & _ & Hcj0 & _)|(Hns & _)]; [|contradiction].
+      destruct (Hown u' cj Hu' Hcj0 Hctj) as (Eu & Ek & _).
+      destruct Hdiff as [Hd1|Hd2]; [congruence|]. apply Hd2. apply same_q_normo. congruence.
+    Qed.
+
+    Lemma part_reverse : all_pairs (reverse_pair cfg) tr.
+    Proof.
+      intros pre ei mid ej post E u f s q ni m Hri Hoi Hop Etxt.
+      destruct (at_pair pre ei mid ej post u f s q ni E Hri Hoi)
+        as (t & seen & d & oj & Ht & Hne & Htu & Hu & HI & _ & -> & Hseen & (k & b & Hown & _) & Hhas).
+      unfold Steps.ev in Hop |- *. cbn [e_op e_out] in Hop |- *. subst oj. cbn [Model.step snd].
+      unfold find_local_id. rewrite Etxt, Ht. cbn [lookup_opt]. split.
+      - intros u' Hout. destruct (lookup t d) as [u0|] eqn:El; [|discriminate]. inversion Hout; subst u0.
+        destruct (inv_rev _ _ _ HI t u' Htu El) as (Hu' & c & Hc & Hct).
+        apply (Hown u' c Hu' Hc Hct).
+      - intros Hnr. destruct Hhas as [Hh|Hrem]; [|contradiction].
+        rewrite (has_lookup is_user seen d u t HI Hu Hh). reflexivity.
+    Qed.
+
+    Theorem parts_hold :
+      all_pairs (stable_pair cfg) tr /\ all_pairs (distinct_pair cfg) tr /\ all_pairs (reverse_pair cfg) tr
+      /\ all_events (valued_event cfg) tr /\ all_events (transient_event cfg) tr /\ all_events manage_event tr
+      /\ all_events (consistent_event is_user) tr.
+    Proof.
+      exact (conj part_stable (conj part_distinct (conj part_reverse (conj part_valued
+               (conj part_transient (conj part_manage part_consistent)))))).
+    Qed.
+  End Parts.
+
+  (* C18, identifier part: for EVERY history from the empty store that satisfies the hypotheses of the
+     property (wf), every part of the property holds *)
+  Theorem ident_holds ops : ident_spec cfg is_user (mtrace [] ops).
+  Proof. intros Hwf. apply parts_hold. exact Hwf. Qed.
+End Runs.
+
+(* ------------------------------------------------------------------ named parts of the property *)
+Section Named.
+  Variable cfg : config.
+  Variable is_user : string -> bool.
+  Variable ops : list op.
+  Let tr := mtrace cfg [] ops.
+  Hypothesis Hwf : wf cfg is_user tr.
+
+  Let Hall := ident_holds cfg is_user ops Hwf.
+
+  Lemma persistent_stable : all_pairs (stable_pair cfg) tr.
+  Proof. apply Hall. Qed.
+  Lemma pairwise_distinct : all_pairs (distinct_pair cfg) tr.
+  Proof. apply Hall. Qed.
+  Lemma reverse_exact : all_pairs (reverse_pair cfg) tr.
+  Proof. apply Hall. Qed.
+  Lemma issued_valued : all_events (valued_event cfg) tr.
+  Proof. apply Hall. Qed.
+  Lemma transient_fresh : all_events (transient_event cfg) tr.
+  Proof. apply Hall. Qed.
+  Lemma manage_local : all_events manage_event tr.
+  Proof. apply Hall. Qed.
+  Lemma reachable_consistent : all_events (consistent_event is_user) tr.
+  Proof. apply Hall. Qed.
+End Named.
+
+(* the state invariant for every reachable state, as a statement about final states *)
+Theorem reachable_inv cfg is_user ops :
+  wf cfg is_user (mtrace cfg [] ops) ->
+  forward_ok is_user (final_state cfg [] ops) /\ reverse_ok is_user (final_state cfg [] ops).
+Proof.
+  intros Hwf.
+  assert (HI : Inv is_user (seen_after cfg [] ops) (final_state cfg [] ops)).
+  { apply run_inv; [apply inv_init|exact Hwf]. }
+  split; [apply (inv_fwd _ _ _ HI)|apply (inv_rev _ _ _ HI)].
+Qed.
+
+(* ------------------------------------------------------------------ non-vacuity and v0 refutations *)
+Definition ex_cfg : config := {| domain := "ex.org"; default_nq := "https://idp.example.org/idp.xml" |}.
+Definition ex_user (s : string) : bool := mem s ["alice"; "bob smith"].
+Definition ex_sp := Some "https://sp1.example.org/sp.xml".
+Definition ex_nq := Some "https://idp.example.org/idp.xml".
+Definition ex_p1 : nameid := mkN ex_nq ex_sp (Some NF_PERSISTENT) None (Some "id-1").
+Definition ex_a1 : nameid := mkN None None (Some NF_PERSISTENT) None (Some "id-5").
+
+(* a history inside the hypotheses that exercises every kind of step, including the situations of the
+   former finding classes 2 (e-mail format id for the same triple, then NewID) and 3 (persistent id
+   without requester and qualifier, then NewID) *)
+Definition ex_good : list op :=
+  [ Persistent "alice" ex_sp ex_nq "id-1";
+    Persistent "alice" ex_sp ex_nq "";
+    Transient "alice" ex_sp None "tr-1";
+    Persistent "bob smith" ex_sp ex_nq "id-2";
+    Persistent "alice" (Some "sp,2=x") ex_nq "id-3";
+    FindLocal ex_p1;
+    GetNameid "alice" NF_EMAIL ex_sp ex_nq "m-1";
+    Manage ex_p1 (Some (Some "new id")) false false;
+    Persistent "alice" ex_sp ex_nq "";
+    Persistent "bob smith" None None "id-5";
+    Manage ex_a1 None false true;
+    Persistent "bob smith" None None "";
+    Mapping ex_p1 {| pfmt := Some NF_TRANSIENT; pspq := Some "sp4"; pallow := None |} "tr-2";
+    RemoveRemote (mkN ex_nq ex_sp (Some NF_PERSISTENT) (Some "new id") (Some "id-1"));
+    FindLocal ex_p1;
+    Persistent "alice" ex_sp ex_nq "id-4";
+    Store "alice" (mkN None ex_sp (Some NF_TRANSIENT) None (Some "raw-1"));
+    FindNameid "alice" [] ].
+
+Example good_example :
+  let tr := mtrace ex_cfg [] ex_good in
+  wf ex_cfg ex_user tr
+  /\ map e_out (firstn 3 tr) = [ONid ex_p1; ONid ex_p1;
+                                ONid (mkN None ex_sp (Some NF_TRANSIENT) None (Some "tr-1"))]
+  /\ map e_out (firstn 1 (skipn 8 tr)) = [ONid (mkN ex_nq ex_sp (Some NF_PERSISTENT) (Some "new id") (Some "id-1"))]
+  /\ map e_out (firstn 1 (skipn 11 tr)) = [ONid ex_a1]
+  /\ qualified_b ex_cfg tr = false /\ single_valued_b ex_cfg tr = false.
+Proof.
+  cbv zeta. split; [apply wf_b_iff; vm_compute; reflexivity|].
+  repeat split; vm_compute; reflexivity.
+Qed.
+
+(* finding class 2 (C18-F2, repaired by 9057a062): before the repair a second non-transient identifier for
+   the same (user, requester, qualifier) — an e-mail format id — and a ManageNameID made persistent_nameid
+   answer another value *)
+Definition ex_class2 : list op :=
+  [ Persistent "alice" ex_sp ex_nq "id-1";
+    GetNameid "alice" NF_EMAIL ex_sp ex_nq "m-1";
+    Manage ex_p1 (Some (Some "x")) false false;
+    Persistent "alice" ex_sp ex_nq "" ].
+
+Lemma class2_v0_refuted :
+  exists cfg is_user ops, qualified cfg (V0.mtrace cfg [] ops) /\ wf cfg is_user (V0.mtrace cfg [] ops)
+                          /\ ~ ident_spec cfg is_user (V0.mtrace cfg [] ops).
+Proof.
+  exists ex_cfg, ex_user, ex_class2.
+  split; [apply qualified_b_iff; vm_compute; reflexivity|].
+  split; [apply wf_b_iff; vm_compute; reflexivity|].
+  intros H. apply ident_spec_b_iff in H. vm_compute in H. discriminate.
+Qed.
+
+(* finding class 3 (C18-F3, repaired by afb60e41): persistent identifier asked for without requester and
+   qualifier; after a ManageNameID the forward entry had a leading empty element, which decodes to an
+   empty NameID *)
+Definition ex_a0 : nameid := mkN None None (Some NF_PERSISTENT) None (Some "id-1").
+Definition ex_cfg0 : config := {| domain := ""; default_nq := "" |}.
+Definition ex_class3 : list op :=
+  [ Persistent "alice" None None "id-1";
+    Manage ex_a0 (Some (Some "x")) false false;
+    Persistent "alice" None None "" ].
+
+Lemma class3_v0_refuted :
+  exists cfg is_user ops, single_valued cfg (V0.mtrace cfg [] ops) /\ wf cfg is_user (V0.mtrace cfg [] ops)
+                          /\ ~ ident_spec cfg is_user (V0.mtrace cfg [] ops).
+Proof.
+  exists ex_cfg0, ex_user, ex_class3.
+  split; [apply single_valued_b_iff; vm_compute; reflexivity|].
+  split; [apply wf_b_iff; vm_compute; reflexivity|].
+  intros H. apply ident_spec_b_iff in H. vm_compute in H. discriminate.
+Qed.
+
+(* the same two histories on the repaired code: the last request answers the persistent identifier *)
+Example class23_repaired :
+  map e_out (skipn 3 (mtrace ex_cfg [] ex_class2)) = [ONid (mkN ex_nq ex_sp (Some NF_PERSISTENT) (Some "x") (Some "id-1"))]
+  /\ map e_out (skipn 2 (mtrace ex_cfg0 [] ex_class3)) = [ONid (mkN None None (Some NF_PERSISTENT) (Some "x") (Some "id-1"))].
+Proof. split; vm_compute; reflexivity. Qed.
+
+(* ------------------------------------------------------------------ encoding *)
+Theorem codec_holds l : codec_spec (map (fun n => (n, code n, decode (code n))) l).
+Proof.
+  split.
+  - intros n c dn Hin. apply in_map_iff in Hin as (n0 & E & _). inversion E; subst. apply decode_code.
+  - intros n c dn n' c' dn' Hin Hin' Ec.
+    apply in_map_iff in Hin as (n0 & E & _). apply in_map_iff in Hin' as (n1 & E' & _).
+    inversion E; inversion E'; subst. apply code_injective. congruence.
+Qed.
+
+Example codec_example :
+  code (mkN (Some "a,1=b") (Some "") None (Some "x y") (Some "%2C=é")) = "0=a%2C1%3Db,3=x%20y,4=%252C%3D%C3%A9".
+Proof. vm_compute. reflexivity. Qed.
+
+(* ------------------------------------------------------------------ targeted id *)
+Section EptidProofs.
+  Variable md5hex : string -> string.
+
+  Definition emake (secret : string) (x : ecall) : string :=
+    eptid_make md5hex secret (c_idp x) (c_sp x) (c_args x).
+
+  (* call, value answered in the history, value answered for the same call on a fresh instance *)
+  Definition obs_of (secret : string) (h : list ecall) (vals : list string) : list (ecall * string * string) :=
+    map (fun p => (fst p, snd p, emake secret (fst p))) (combine h vals).
+  Definition eptid_obs (secret : string) (h : list ecall) := obs_of secret h (eptid_run md5hex secret [] h).
+  Definition eptid_obs_v0 (secret : string) (h : list ecall) := obs_of secret h (eptid_run_v0 md5hex secret [] h).
+
+  Section Gen.
+    Variable keyf : ecall -> string.
+
+    (* every cache entry was made for an earlier call with that key *)
+    Definition cache_ok (secret : string) (past : list ecall) (c : db) : Prop :=
+      forall k v, lookup k c = Some v -> exists x, In x past /\ keyf x = k /\ v = emake secret x.
+
+    Lemma eptid_run_spec secret h : forall past c,
+      cache_ok secret past c ->
+      (forall a b, In a (past ++ h) -> In b (past ++ h) -> keyf a = keyf b -> a = b) ->
+      eptid_run_gen md5hex keyf secret c h = map (emake secret) h.
+    Proof.
+      induction h as [|a h IH]; intros past c Hc Hn; [reflexivity|].
+      cbn [eptid_run_gen map]. unfold eptid_get_gen. fold (emake secret a).
+      assert (Hn' : forall x y, In x ((past ++ [a]) ++ h) -> In y ((past ++ [a]) ++ h) -> keyf x = keyf y -> x = y)
+        by (rewrite <- app_assoc; exact Hn).
+      destruct (lookup (keyf a) c) as [v|] eqn:El.
+      - destruct (Hc _ _ El) as (x & Hx & Hk & ->).
+        assert (x = a).
+        { apply Hn; [apply in_app_iff; left; exact Hx|apply in_app_iff; right; left; reflexivity|exact Hk]. }
+        subst x. f_equal. apply (IH (past ++ [a])%list); [|exact Hn'].
+        intros k v Hl. destruct (Hc k v Hl) as (y & Hy & Hr). exists y. split; [apply in_app_iff; left; exact Hy|exact Hr].
+      - f_equal. apply (IH (past ++ [a])%list); [|exact Hn'].
+        intros k v Hl. rewrite lookup_set in Hl. destruct (String.eqb k (keyf a)) eqn:E.
+        + apply String.eqb_eq in E. inversion Hl; subst. exists a. split; [apply in_app_iff; right; left; reflexivity|auto].
+        + destruct (Hc k v Hl) as (y & Hy & Hr). exists y. split; [apply in_app_iff; left; exact Hy|exact Hr].
+    Qed.
+  End Gen.
+
+  (* the answer in ANY history is the answer of a fresh instance: the cache key determines the call *)
+  Theorem eptid_deterministic secret h : eptid_run md5hex secret [] h = map (emake secret) h.
+  Proof.
+    apply (eptid_run_spec eptid_key secret h [] []); [intros k v H; discriminate|].
+    intros a b _ _. apply eptid_key_injective.
+  Qed.
+
+  (* the pinned snapshot: only without a collision of the old key *)
+  Theorem eptid_deterministic_v0 secret h :
+    no_key_collision h -> eptid_run_v0 md5hex secret [] h = map (emake secret) h.
+  Proof.
+    intros Hn. apply (eptid_run_spec eptid_key_v0 secret h [] []); [intros k v H; discriminate|exact Hn].
+  Qed.
+
+  Hypothesis md5_injective : forall a b, md5hex a = md5hex b -> a = b.
+  Hypothesis md5_length : forall a b, String.length (md5hex a) = String.length (md5hex b).
+
+  Lemma concat_all_hd args : concat_all args = hd "" args ++ concat_all (tl args).
+  Proof. destruct args; reflexivity. Qed.
+
+  Theorem eptid_distinct secret x x' :
+    c_idp x = c_idp x' -> tl (c_args x) = tl (c_args x') ->
+    c_sp x <> c_sp x' \/ euser x <> euser x' -> emake secret x <> emake secret x'.
+  Proof.
+    intros Hi Ht Hd E. unfold emake, eptid_make in E. cbn [join] in E. rewrite Hi in E.
+    apply sapp_inv_head in E. apply sapp_inv_head in E.
+    apply sapp_inv_len in E; [|cbn [append String.length]; f_equal; apply md5_length].
+    destruct E as [Es E]. apply sapp_inv_head in E. apply md5_injective in E.
+    destruct Hd as [Hd|Hd]; [contradiction|]. apply Hd. rewrite Es in E.
+    apply sapp_inv_tail in E. rewrite (concat_all_hd (c_args x)), (concat_all_hd (c_args x')), Ht in E.
+    apply sapp_inv_tail in E. exact E.
+  Qed.
+
+  Lemma combine_map_self {A B} (f : A -> B) l : combine l (map f l) = map (fun x => (x, f x)) l.
+  Proof. induction l as [|a l IH]; cbn; [reflexivity|]. rewrite IH. reflexivity. Qed.
+
+  (* C18, targeted-id part: every history, under the guard that excludes finding class 4 (same extra arguments) *)
+  Theorem eptid_holds secret h : same_extras h -> eptid_spec (eptid_obs secret h).
+  Proof.
+    intros Hext. unfold eptid_obs, obs_of. rewrite (eptid_deterministic secret h), combine_map_self, map_map.
+    cbn [fst snd]. split.
+    - intros x v f Hin. apply in_map_iff in Hin as (y & E & _). inversion E; subst. reflexivity.
+    - intros x v f x' v' f' Hin Hin' Hi Hd.
+      apply in_map_iff in Hin as (y & E & Hy). apply in_map_iff in Hin' as (y' & E' & Hy').
+      inversion E; inversion E'; subst. apply eptid_distinct; auto.
+  Qed.
+End EptidProofs.
+
+(* finding class 1 (C18-F1, repaired by 331c8f06): the old cache key sp ++ "__" ++ user did not determine the
+   call — whatever the hash function *)
+Definition ex_collision : list ecall :=
+  [ {| c_idp := "idp"; c_sp := "a__b"; c_args := ["c"] |}; {| c_idp := "idp"; c_sp := "a"; c_args := ["b__c"] |} ].
+
+Lemma eptid_v0_refuted : forall md5hex, exists secret h, same_extras h /\ ~ eptid_spec (eptid_obs_v0 md5hex secret h).
+Proof.
+  intros md5hex. exists "s", ex_collision. split.
+  - apply same_extras_b_iff. vm_compute. reflexivity.
+  - intros [H _].
+    specialize (H {| c_idp := "idp"; c_sp := "a"; c_args := ["b__c"] |} _ _ (or_intror (or_introl eq_refl))).
+    cbn in H. discriminate H.
+Qed.
+
+(* finding class 4 (C18-F4, open): Eptid.make hashes "".join(args) + sp + secret, so the user "a" with extra
+   argument "b" and the user "ab" without extra argument receive the same targeted id — whatever the hash *)
+Definition ex_extras : list ecall :=
+  [ {| c_idp := "idp"; c_sp := "sp"; c_args := ["a"; "b"] |}; {| c_idp := "idp"; c_sp := "sp"; c_args := ["ab"] |} ].
+
+Lemma eptid_make_refuted : forall md5hex, exists secret h, ~ eptid_spec (eptid_obs md5hex secret h).
+Proof.
+  intros md5hex. exists "s", ex_extras. intros [_ H].
+  refine (H {| c_idp := "idp"; c_sp := "sp"; c_args := ["a"; "b"] |} _ _
+            {| c_idp := "idp"; c_sp := "sp"; c_args := ["ab"] |} _ _
+            (or_introl eq_refl) (or_intror (or_introl eq_refl)) eq_refl _ _).
+  - right. cbn. discriminate.
+  - reflexivity.
+Qed.
+
+Lemma ecall_eqb_eq a b : ecall_eqb a b = true <-> a = b.
+Proof.
+  unfold ecall_eqb. rewrite !andb_true_iff, !String.eqb_eq, (list_eqb_eq String.eqb String.eqb_eq).
+  destruct a as [i s l], b as [i' s' l']; cbn [c_idp c_sp c_args]. split.
+  - intros [[-> ->] ->]. reflexivity.
+  - intros E. inversion E. auto.
+Qed.
+
+(* the class-1 guard evaluated by the correspondence is the guard of the v0 theorem *)
+Lemma key_collision_b_false h : key_collision_b h = false <-> no_key_collision h.
+Proof.
+  unfold key_collision_b, no_key_collision. split.
+  - intros H a b Ha Hb Hk. destruct (ecall_eqb a b) eqn:E; [apply ecall_eqb_eq; exact E|]. exfalso.
+    assert (Ht : existsb (fun a0 => existsb (fun b0 =>
+       String.eqb (eptid_key_v0 a0) (eptid_key_v0 b0) && negb (ecall_eqb a0 b0)) h) h = true).
+    { apply existsb_exists. exists a. split; [exact Ha|]. apply existsb_exists. exists b. split; [exact Hb|].
+      rewrite Hk, String.eqb_refl, E. reflexivity. }
+    congruence.
+  - intros H. destruct (existsb _ h) eqn:E; [|reflexivity]. exfalso.
+    apply existsb_exists in E as (a & Ha & E). apply existsb_exists in E as (b & Hb & E).
+    apply andb_true_iff in E as [E1 E2]. apply String.eqb_eq in E1. apply negb_true_iff in E2.
+    rewrite (proj2 (ecall_eqb_eq a b) (H a b Ha Hb E1)) in E2. discriminate.
+Qed.
+
+Lemma guards_reflect cfg tr :
+  (qualified_b cfg tr = true <-> qualified cfg tr) /\ (single_valued_b cfg tr = true <-> single_valued cfg tr).
+Proof. split; [apply qualified_b_iff|apply single_valued_b_iff]. Qed.
+
+Lemma eptid_reflect obs h :
+  (eptid_spec_b obs = true <-> eptid_spec obs) /\ (key_collision_b h = false <-> no_key_collision h)
+  /\ (same_extras_b h = true <-> same_extras h).
+Proof. split; [apply eptid_spec_b_iff|split; [apply key_collision_b_false|apply same_extras_b_iff]]. Qed.
